@@ -25,7 +25,8 @@ RULE = (
     "Hypothesis-generated operation sequences (read, advance(d), advance_<7 units>(n), reset(i), auto_advance set/get, "
     "ZonedClock getters) with amounts incl. ones overflowing Instant, compared step by step with the model "
     "(now, auto); generated (operation lists for 2-3 threads, schedule) pairs executed under a cooperative line-level "
-    "scheduler and checked for linearizability; a 16-thread stress run. Non-trivial: a history with >= 1 unit-advance "
+    "scheduler and checked for linearizability; a 16-thread stress run; ZonedClock built through the constructor, "
+    "IClock.in_zone and in_utc; SystemClock against the live OS clock and against scripted time_ns() readings. Non-trivial: a history with >= 1 unit-advance "
     "and a later read, or a schedule with >= 1 pre-emption. Distinct = case hash."
 )
 ASSUMPTIONS = [
